@@ -38,6 +38,10 @@ pub fn corpus() -> Vec<Value> {
         json!({"type":"object","properties":{},"additionalProperties":{"type":"integer"}}),
         json!({"type":"object","properties":{"a_rather_long_property_name_1":{"type":"integer"},"a_rather_long_property_name_2":{"type":"boolean"},"a_rather_long_property_name_":{"type":"null"}},"required":["a_rather_long_property_name_1","a_rather_long_property_name_2"],"additionalProperties":false}),
         json!({"enum":["the quick brown fox jumps over A","the quick brown fox jumps over B",{"the quick brown fox jumps over C":1}]}),
+        // lengths count characters, not bytes: literals that fit maxLength only in characters
+        json!({"type":"string","maxLength":4,"enum":["tea","caf\u{e9}","\u{65e5}\u{672c}\u{8a9e}\u{3067}"]}),
+        json!({"type":"object","properties":{"city":{"type":"string","minLength":4,"maxLength":6,"enum":["Oslo","Z\u{fc}rich","M\u{e1}laga"]},"n":{"type":"integer"}},"required":["city"],"additionalProperties":false}),
+        json!({"anyOf":[{"type":"integer"},{"type":"string","maxLength":2,"const":"\u{65e5}\u{672c}"}]}),
     ]
 }
 
@@ -45,7 +49,7 @@ fn gen_num(rng: &mut Rng) -> Value {
     let integer = rng.chance(1, 2);
     let mut m = serde_json::Map::new();
     m.insert("type".into(), json!(if integer { "integer" } else { "number" }));
-    let dec = |rng: &mut Rng| -> Value { let s = if integer { 0 } else { [0usize, 0, 1, 2][rng.below(4)] }; let v = rng.range(-60, 60); serde_json::from_str(&if s == 0 { format!("{v}") } else { format!("{}", v as f64 / 10f64.powi(s as i32)) }).unwrap() };
+    let dec = |rng: &mut Rng| -> Value { let s = if integer { [0usize, 0, 0, 1][rng.below(4)] } else { [0usize, 0, 1, 2][rng.below(4)] }; let v = rng.range(-60, 60); serde_json::from_str(&if s == 0 { format!("{v}") } else { format!("{}", v as f64 / 10f64.powi(s as i32)) }).unwrap() };
     let a = dec(rng); let b = dec(rng);
     let (a, b) = if a.as_f64() > b.as_f64() { (b, a) } else { (a, b) };
     if rng.chance(2, 3) { m.insert(if rng.chance(1, 4) { "exclusiveMinimum" } else { "minimum" }.into(), a); }
@@ -57,7 +61,19 @@ fn gen_num(rng: &mut Rng) -> Value {
 pub fn gen_schema(rng: &mut Rng, depth: usize, allow_ref: bool) -> Value {
     match rng.below(if depth > 2 { 5 } else { 10 }) {
         0 => gen_num(rng),
-        1 => { let lo = rng.below(3); let mut v = json!({"type":"string"}); if rng.chance(1, 2) { v["minLength"] = json!(lo); } if rng.chance(1, 2) { v["maxLength"] = json!(lo + rng.below(4)); } v }
+        1 => {
+            if rng.chance(1, 4) {
+                // literals with non-ASCII characters under length bounds given in characters
+                let pool = ["\u{e9}", "a\u{df}", "\u{65e5}\u{672c}", "x\u{1f600}", "na\u{ef}ve", "ab"];
+                let lits: Vec<&str> = (0..1 + rng.below(3)).map(|_| pool[rng.below(pool.len())]).collect();
+                let n = lits.iter().map(|l| l.chars().count()).max().unwrap();
+                let mut v = json!({"type":"string","enum":lits});
+                if rng.chance(2, 3) { v["maxLength"] = json!(n); }
+                if rng.chance(1, 3) { v["minLength"] = json!(lits.iter().map(|l| l.chars().count()).min().unwrap()); }
+                return v;
+            }
+            let lo = rng.below(3); let mut v = json!({"type":"string"}); if rng.chance(1, 2) { v["minLength"] = json!(lo); } if rng.chance(1, 2) { v["maxLength"] = json!(lo + rng.below(4)); } v
+        }
         2 => { let t = ["boolean", "null"][rng.below(2)]; json!({"type": t}) }
         3 => { let e = [json!(["a", 1, null]), json!([true, "x\"y", 2.5]), json!([[1, 2], {"k": "v"}, "z"])][rng.below(3)].clone(); json!({"enum": e}) }
         4 => { let c = [json!("c"), json!(7), json!({"a": [1]}), json!(null)][rng.below(4)].clone(); json!({"const": c}) }
